@@ -245,6 +245,16 @@ class load(DataStreamProcessor):
                 descriptor['format'] = self.options.get('format', stream.format)
                 descriptor['path'] += '.{}'.format(stream.format)
                 self.iterators.append(stream.iter(keyed=True))
+        # A loaded resource whose name is already taken by a resource of this flow gets a free one
+        existing = set(res.name for res in dp.resources)
+        for i, descriptor in enumerate(self.resource_descriptors):
+            name, index = descriptor['name'], 1
+            while name in existing:
+                index += 1
+                name = '{}_{}'.format(descriptor['name'], index)
+            if name != descriptor['name']:
+                self.resource_descriptors[i] = dict(descriptor, name=name)
+            existing.add(name)
         dp.descriptor.setdefault('resources', []).extend(self.resource_descriptors)
         return dp
 
